@@ -250,21 +250,41 @@ def rule_cli_guard(ctx, R):
         def mcall(name):
             return lambda t, e: t[0] == "call" and isinstance(t[1], str) and t[1] == "daachorse::Match::" + name and \
                 _search_iter_on_line(t[2][0], line, pma) == "find_overlapping_no_suffix_iter"
-        inc = [x for x in sts if m(mcall("start"), x["tgt"][2]) and m(B("Add", E(ANY, mcall("start")), K(1)), x["val"])]
-        dec = [x for x in sts if m(mcall("end"), x["tgt"][2]) and m(B("Sub", E(ANY, mcall("end")), K(1)), x["val"])]
-        ctx.check(len(inc) == 1 and len(dec) == 1 and len(sts) == 2, "CLI-HL", b, "depth-deltas", b.span,
+        pulls = [x for x in S.calls if core.callee_base(x["key"]) == "core::iter::Iterator::next" and
+                 _search_iter_on_line(x["args"][0], line, pma) == "find_overlapping_no_suffix_iter"]
+        # per pull site (one loop, or the first match peeled off in front of the loop): +1 at start() and -1 at end() of THAT item
+        def of_item(name, psite_):
+            return lambda t, e: t[0] == "call" and isinstance(t[1], str) and t[1] == "daachorse::Match::" + name and \
+                any(y[0] == "call" and y[3] == psite_ for y in walk(t[2][0])) and \
+                _search_iter_on_line(t[2][0], line, pma) == "find_overlapping_no_suffix_iter"
+        okd = bool(pulls)
+        used = []
+        per_pull = []
+        for pl_ in pulls:
+            ps_ = (b.path, pl_["bb"])
+            inc = [x for x in sts if m(of_item("start", ps_), x["tgt"][2]) and m(B("Add", E(ANY, of_item("start", ps_)), K(1)), x["val"])]
+            dec = [x for x in sts if m(of_item("end", ps_), x["tgt"][2]) and m(B("Sub", E(ANY, of_item("end", ps_)), K(1)), x["val"])]
+            okd = okd and len(inc) == 1 and len(dec) == 1
+            used += inc + dec
+            per_pull.append((pl_, inc, dec))
+        okd = okd and len(used) == len(sts)
+        ctx.check(okd, "CLI-HL", b, "depth-deltas", b.span,
                   "highlighting must add 1 at start() and subtract 1 at end() of every match of find_overlapping_no_suffix_iter(line); stores %s"
                   % [(show(x["tgt"])[:80], show(x["val"])[:80]) for x in sts])
-        if len(inc) == 1 and len(dec) == 1:
-            pulls = [x for x in S.calls if core.callee_base(x["key"]) == "core::iter::Iterator::next" and
-                     _search_iter_on_line(x["args"][0], line, pma) == "find_overlapping_no_suffix_iter"]
-            okp = len(pulls) == 1
-            if okp:
-                sw = switches_on(root, lambda d: d[0] == "discr" and d[1][0] == "call" and d[1][3] == (b.path, pulls[0]["bb"]))
-                okp = len(sw) == 1
-                if okp:
-                    some, none = opt_arms(sw[0][1])
-                    okp = all(pulls[0]["bb"] not in (b.reach(some, avoid_blocks=[x["bb"]]) - {some} if some != x["bb"] else set()) for x in inc + dec)
+        if okd:
+            okp = True
+            stops = {pl_["bb"] for pl_ in pulls} | {s_["bb"] for s_ in writes}
+            for pl_, inc, dec in per_pull:
+                sw = switches_on(root, lambda d: d[0] == "discr" and d[1][0] == "call" and d[1][3] == (b.path, pl_["bb"]))
+                if len(sw) != 1:
+                    okp = False
+                    continue
+                some, none = opt_arms(sw[0][1])
+                for x in inc + dec:
+                    # from the Some arm neither another pull nor any output is reached without passing the store
+                    r_ = b.reach(some, avoid_blocks=[x["bb"]]) - ({some} if some != x["bb"] else set())
+                    if some != x["bb"] and (r_ & stops):
+                        okp = False
             ctx.check(okp, "CLI-HL", b, "every-match-counted", b.span, "both deltas are applied for every match pulled (no match skipped)")
     # both search calls are on the same (pma, line)
     for s in S.calls:
@@ -480,6 +500,10 @@ def rule_cli_print(ctx, R):
                 disp = [x for x in walk(s["args"][1]) if x[0] == "call" and x[1].endswith("Argument::new_display")]
                 if any(any(y[0] == "param" and y[1] == pnames[param] for y in walk(d)) for d in disp):
                     out.append(s)
+            elif s["name"] == "write_all" and len(s["args"]) == 2 and m(Par(pnames["stream"]), s["args"][0]) and \
+                    any(y[0] == "param" and y[1] == pnames[param] for y in walk(s["args"][1])):
+                # the bytes written directly: stream.write_all(text.as_bytes()) is what `write!(stream, "{}", text)` does
+                out.append(s)
         return out
     wf, wn, wl = writes_of("filename"), writes_of("line_no"), writes_of("line")
     ctx.check(len(wf) == 2 and len(wn) == 2 and len(wl) >= 3, "CLI-ORDER", b, "prefix-writes", b.span,
